@@ -6,7 +6,7 @@ import ast
 from ..model import CFG, PDA, IG, DFA, ENFA, NFA, REGEX
 from . import names
 from .common import site_of
-from .flow import (Oblig, calls, events, deps_of, arg_deps, SELF, P, result_locs, START, FINAL, DELTA_SYM,
+from .flow import (own, Oblig, calls, events, deps_of, arg_deps, SELF, P, result_locs, START, FINAL, DELTA_SYM,
                    is_worklist_closure, check_escapes)
 
 OTHER = P("other")
@@ -120,7 +120,7 @@ def run(eng, rep, tier):
                   % (cname, returns, sorted(excs) or "nothing"), s_bad, site=site_of(prog, f, f.node))
 
     # -------------------------------------------------------------- C11.3 empty word, start rules, shapes
-    eps = [ev for ev in summ.events if ev.kind == "new" and ev.callee == PROD and len(ev.args) > 1 and
+    eps = [ev for ev in own(summ) if ev.kind == "new" and ev.callee == PROD and len(ev.args) > 1 and
            ev.args[1].only("list") and ev.args[1].elem is None]
     okc = bool(eps) and all(("self", ("_productions",)) in ev.ctrl | _xc(ev) or SELF in ev.ctrl | _xc(ev) for ev in eps) and \
         all(any(isinstance(d, tuple) and d[0] == "p:other" for d in ev.ctrl | _xc(ev)) for ev in eps)
@@ -157,19 +157,22 @@ def run(eng, rep, tier):
               "finality of the product PDA does not depend on both operands", s2, site=site_of(prog, f2, f2.node))
     ob.worklist("C11.3", f2, "pair-worklist", "reachable pairs by a visited-set worklist",
                 "PDA.intersection is not a closure worklist")
-    keep = False
-    for sub in ast.walk(f2.node):
-        if isinstance(sub, ast.If) and "Epsilon()" in ast.unparse(sub.test):
-            test, neg = sub.test, False
-            while isinstance(test, ast.UnaryOp) and isinstance(test.op, ast.Not):
-                test, neg = test.operand, not neg
-            if isinstance(test, ast.Compare) and isinstance(test.ops[0], ast.NotEq):
-                neg = not neg
-            branch = sub.orelse if neg else sub.body
-            if any(isinstance(st, ast.Assign) and isinstance(st.value, ast.List) and len(st.value.elts) == 1 and
-                   isinstance(st.value.elts[0], ast.Name) for st in branch):
-                keep = True
-    ob.decide("R1", "C11.3", f2, "epsilon-keeps-automaton-state", keep,
+    # A product state is (PDA state, automaton state).  On an epsilon move of the PDA the automaton stays where it is,
+    # so some *target* pair must be able to carry the automaton state that was popped.  Decided on identities: a target
+    # pair is one whose PDA component cannot be the PDA's start state (it comes out of the transition function); the
+    # popped automaton state is the only automaton-side value that can be the automaton's start state.
+    def _has_start(av):
+        return any("_start_state" in l[1] or "start_states" in l[1] for l in av.alias)
+    pairs = [ev for ev, _ in calls(s2, "to_pda_combined_state", own=True) if len(ev.args) >= 2]
+    targets = [ev for ev in pairs if not _has_start(ev.args[0])]
+    keep = any(_has_start(ev.args[1]) for ev in targets)
+    if not pairs or not targets:
+        rep.error("R1", "C11.3", f2.qname, "epsilon-keeps-automaton-state",
+                  "the product pairs of PDA.intersection are not built through to_pda_combined_state any more; the rule "
+                  "cannot follow them", site=site_of(prog, f2, f2.node))
+        keep = None
+    if keep is not None:
+      ob.decide("R1", "C11.3", f2, "epsilon-keeps-automaton-state", keep,
               "on an epsilon move of the PDA the automaton stays in its state",
               "epsilon moves of the PDA are not paired with `the automaton stays`", None, site=site_of(prog, f2, f2.node))
     adds = [ev for ev, _ in calls(s2, "add_transition", own=True, recv_locs=res)]
@@ -180,7 +183,7 @@ def run(eng, rep, tier):
               site=site_of(prog, f2, f2.node))
     # -------------------------------------------------------------- C11.4 fresh converter
     for f, s, label in ((fi, summ, "CFG"), (f2, s2, "PDA")):
-        convs = [ev for ev in s.events if ev.kind == "new" and ("Converter" in ev.callee)]
+        convs = [ev for ev in own(s) if ev.kind == "new" and ("Converter" in ev.callee)]
         ob.decide("R4", "C11.4", f, "fresh-converter:" + label, bool(convs),
                   "a new converter is created in every call", "%s.intersection reuses a converter across calls" % label, s,
                   site=site_of(prog, f, f.node))
@@ -214,7 +217,7 @@ def _start_pair_tested(s2):
     """Some finality test (membership in a FINAL set) is applied to a value that may be the seeded start state."""
     from .flow import may_be_element_of
     ok_self = ok_other = False
-    for ev in s2.events:
+    for ev in own(s2):
         if ev.kind != "member" or ev.recv is None or not ev.args:
             continue
         a = ev.args[0]
